@@ -356,6 +356,29 @@ func c17Orbit(r *vx.Run, local string, labels []string) {
 			if !Equal(v, base) && k == baseKey {
 				r.Violation("C17:orbit:Equal-vs-key", c17Quoted(v), cs(v))
 			}
+			// Equal coincides with key equality also for neighbours of the variant that are not
+			// spelling variants in the sense of the orbit: a trailing dot after the domain, one
+			// more letter (the answer may be either, it has to agree with the keys)
+			if d.dom != "" {
+				for _, pv := range []string{v + ".", strings.ToUpper(v) + ".", v + "x", "x" + v} {
+					kp, errp := ForLookup(pv)
+					if errp != nil {
+						continue
+					}
+					e1, e2 := Equal(v, pv), Equal(pv, v)
+					r.Eval()
+					if e1 != e2 {
+						r.Violation("C17:orbit:Equal-not-symmetric", c17Quoted(v)+" / "+c17Quoted(pv), c17Case{"pair", []string{v, pv}})
+					}
+					if e1 != (kp == k) {
+						r.Violation("C17:orbit:Equal-vs-key:neighbour", fmt.Sprintf("Equal(%s,%s)=%v but keys %s / %s", c17Quoted(v), c17Quoted(pv), e1, c17Quoted(k), c17Quoted(kp)), c17Case{"pair", []string{v, pv}})
+					}
+					// transitivity through the base spelling
+					if Equal(pv, v) && Equal(v, base) && !Equal(pv, base) {
+						r.Violation("C17:orbit:Equal-not-transitive", fmt.Sprintf("%s = %s = %s but not %s = %s", c17Quoted(pv), c17Quoted(v), c17Quoted(base), c17Quoted(pv), c17Quoted(base)), c17Case{"pair", []string{pv, base}})
+					}
+				}
+			}
 			// idempotence of the lookup key
 			if k2, err := ForLookup(k); err != nil || k2 != k {
 				r.Violation(c17Fingerprint("idempotence-ForLookup", vname, base), fmt.Sprintf("ForLookup(%s)=%s, applied again: %s (%v)", c17Quoted(v), c17Quoted(k), c17Quoted(k2), err), cs(v))
